@@ -8,7 +8,9 @@ alloc = KaniUnit("c15_alloc", CORE,
                         dict(file=EL, name="c15_rev_len", params="c: &EdgeLoaderConfig", ret="usize", anchor=r"let mut rev: Vec<CompactOrderedHashMap<EdgeId, VertexId>> =\s*vec!\[CompactOrderedHashMap::empty\(\); (?P<expr>[^\]]+)\];", subst=[])],
                  modules=[dict(file=EL, src="c15_alloc.rs")],
                  harnesses=[H("c15_adjacency_sized_by_vertices", "complete", "EdgeLoader::try_from: both adjacency vectors are allocated with n_vertices slots (all usize)", timeout=120)])
-UNITS = [VerusUnit("c15_graph", "c15_graph", rlimit=60), VerusUnit("c11_container", "c11_container", rlimit=60), alloc]
+lw = KaniUnit("c15_loader_wit", CORE, modules=[dict(file=CORE + "/src/model/network/graph_loader.rs", src="c15_loader_wit.rs")], harnesses=[])
+lw.native_witnesses = ["c15_wit_loaded_network_is_the_listed_one"]
+UNITS = [VerusUnit("c15_graph", "c15_graph", rlimit=60), VerusUnit("c11_container", "c11_container", rlimit=60), alloc, lw]
 EXPLANATION = ("file reading / parsing / decompression (csv, serde, flate2, std::fs) is outside both back ends: 'loaded == listed' is NOT decided. Decided (in-memory half): the per-row adjacency update of "
                "EdgeLoader::try_from (closure extracted by rule R5, Verus): out-list of the source gets edge->destination, in-list of the destination gets edge->source, nothing else changes, an endpoint beyond the vertex "
                "count is recorded as missing; Graph::{get_edge,get_vertex,src_vertex_id,dst_vertex_id,edge_triplet}: lookup by id is lookup by index, out of range => the matching NotFound error; "
